@@ -14,7 +14,9 @@ The file is a list of bytes. Followed function by function:
   every entry of every table assigned in order);
 * reader/reader.go `loadXRef` (`loadXRef`), `GetObject`, `getUncompressedObject`,
   `getCompressedObject`, `getObjectStream` without their caches (`getObjectB`; the `loading`
-  guard against an object whose loading leads back to itself is the `loading` list);
+  guard against an object whose loading leads back to itself is the `loading` list, and the
+  limit of `maxNestedLoads` = 16 objects being loaded inside each other is the check on its
+  length);
 * core/parser.go `ParseIndirectObject`, `parseStream` and core/lexer.go `SkipStreamEOL`,
   `ReadBytes` (`parseIndirect`, `parseStreamData`, `skipStreamEOL`) on top of the C06 model of
   `ParseObject` (`Pdf.parseObject`);
@@ -485,9 +487,17 @@ def memberAtI (os : Reader.ObjStm) (n idx : Int) : Option Obj :=
       | .error _ => none
       | .ok (o, _) => if num = n then some o else none
 
+/-- `maxNestedLoads` of reader/reader.go (repair 129dd3d): how many objects may be in the middle
+of being loaded at once -/
+def maxNestedLoads : Nat := 16
+
 /-- `(*Reader).GetObject` without `objCache` / `objStmCache`. `loading`: the objects whose
-lookup is in progress (`r.loading`); `fuel`: nesting bound, one per nested `GetObject` (each
-nests on a number not in `loading`, so `x.length + 2` is never used up). -/
+lookup is in progress (`r.loading`, a set: every nested lookup is of a number not yet in it, so
+the list has no duplicates and its length is `len(r.loading)`). After the entry checks and the
+self-reference check comes the code's `len(r.loading) >= maxNestedLoads` check: the seventeenth
+object to be loaded inside sixteen others is an error. `fuel` only makes the recursion
+structural: one per nested `GetObject`; `maxNestedLoads + 1 - loading.length` is never used
+up (`Lemmas/XrefNest.lean: getObjectB_fuel`). -/
 def getObjectB (ext : Reader.Ext) (file : Str) (x : RawSection) : Nat → List Int → Int → Option PVal
   | 0, _, _ => none
   | fuel + 1, loading, n =>
@@ -496,6 +506,7 @@ def getObjectB (ext : Reader.Ext) (file : Str) (x : RawSection) : Nat → List I
     | some e =>
       if e.kind = .free then none
       else if loading.contains n then none
+      else if loading.length ≥ maxNestedLoads then none
       else
         let lenOf : Int → Option Int := fun m =>
           match getObjectB ext file x fuel (n :: loading) m with
@@ -530,7 +541,7 @@ def openFile (ext : Reader.Ext) (file : Str) : Res RawSection :=
 def lookup (ext : Reader.Ext) (file : Str) (n : Int) : Res (Option PVal) :=
   match openFile ext file with
   | .error e => .error e
-  | .ok x => .ok (getObjectB ext file x (x.length + 2) [] n)
+  | .ok x => .ok (getObjectB ext file x (maxNestedLoads + 1) [] n)
 
 /-! ## `core.ObjectStream` as a state machine (its lazy decode and its per-index cache) -/
 
@@ -590,5 +601,62 @@ def osSpec (dec : Except Reader.Err Reader.ObjStm) (idx : Int) : Option (Int × 
 def osRun (dec : Except Reader.Err Reader.ObjStm) : OSState → List Int → List (Option (Int × Obj))
   | _, [] => []
   | st, i :: is => (osGetByIndex dec st i).1 :: osRun dec (osGetByIndex dec st i).2 is
+
+/-! ### the same object as the code has it since c437385: the header error is KEPT
+
+`decode()` now stores the decoded data before it parses the header and, when the header does
+not parse, drops the pairs read so far and keeps the error in `headerErr`; `os.decoded != nil`
+then answers `headerErr` on every later access. `OSState`/`osDecode` above say "a failed decode
+leaves the object undecoded" (the earlier repair c469dd4). The two are different state machines
+with the same answers (`Props/C04Hist.lean: objstm_header_error_kept_equivalent`). -/
+
+/-- `decoded`/`offsets`, `headerErr != nil`, and the `objects` cache -/
+structure OSStateK where
+  decoded : Option Reader.ObjStm := none
+  headerErr : Bool := false
+  objects : List (Nat × Obj) := []
+
+/-- `decode()` of c437385. `keep`: the failure is one the object remembers (the header did not
+parse and the decoded data is not `nil`); `false`: `Stream.Decode()` itself failed, or the
+decoded data is `nil`, and the next access starts again -/
+def osDecodeK (keep : Bool) (dec : Except Reader.Err Reader.ObjStm) (st : OSStateK) :
+    Option Reader.ObjStm × OSStateK :=
+  if st.headerErr then (none, st)
+  else
+    match st.decoded with
+    | some os => (some os, st)
+    | none =>
+      match dec with
+      | .ok os => (some os, { st with decoded := some os })
+      | .error _ => (none, { st with headerErr := keep })
+
+/-- `GetObjectByIndex` behind `decode()`: the answer and the per-index cache afterwards -/
+def osAnswer (os : Reader.ObjStm) (objects : List (Nat × Obj)) (idx : Int) :
+    Option (Int × Obj) × List (Nat × Obj) :=
+  if idx < 0 then (none, objects)
+  else
+    match os.offsets[idx.toNat]? with
+    | none => (none, objects)
+    | some (num, _) =>
+      match Xref.getLast objects idx.toNat with
+      | some o => (some (num, o), objects)
+      | none =>
+        match Reader.memberSlice os idx.toNat with
+        | none => (none, objects)
+        | some (_, bytes) =>
+          match coreParse bytes with
+          | .error _ => (none, objects)
+          | .ok (o, _) => (some (num, o), objects ++ [(idx.toNat, o)])
+
+def osGetByIndexK (keep : Bool) (dec : Except Reader.Err Reader.ObjStm) (st : OSStateK) (idx : Int) :
+    Option (Int × Obj) × OSStateK :=
+  match osDecodeK keep dec st with
+  | (none, st') => (none, st')
+  | (some os, st') => ((osAnswer os st'.objects idx).1, { st' with objects := (osAnswer os st'.objects idx).2 })
+
+/-- a sequence of `GetObjectByIndex` calls on one `ObjectStream` (the code since c437385) -/
+def osRunK (keep : Bool) (dec : Except Reader.Err Reader.ObjStm) : OSStateK → List Int → List (Option (Int × Obj))
+  | _, [] => []
+  | st, i :: is => (osGetByIndexK keep dec st i).1 :: osRunK keep dec (osGetByIndexK keep dec st i).2 is
 
 end Tabula.XrefFile
